@@ -250,6 +250,8 @@ func (c *Ctx) sites(f *ssa.Function, env Env, chk *GCheck, depth int) []gsite {
 					s := gsite{cut: boolEdgesT(x, boolWant), instr: x}
 					if boolWant {
 						s.okVal = x
+					} else {
+						s.falseVal = x
 					}
 					out = append(out, s)
 				} else if x.Call.Signature().Results().Len() == 2 && isBoolType(x.Call.Signature().Results().At(1).Type()) {
@@ -926,6 +928,10 @@ func (c *Ctx) descendSites(f *ssa.Function, env Env, chk, _ *GCheck, depth int) 
 				}
 			}
 			if !all {
+				// a predicate of the opposite sense: it answers false only across the disjunction
+				if len(cs) == 1 && isBoolType(x.Type()) && inModule(cs[0]) && cs[0].Blocks != nil && c.ensuresFalse(cs[0], c.calleeEnvV(&x.Call, cs[0], env, x), chk, depth+1) {
+					out = append(out, gsite{cut: boolEdgesT(x, false), falseVal: x, instr: x})
+				}
 				continue
 			}
 			if ev := errResult(x); ev != nil {
